@@ -558,7 +558,8 @@ def check_property(pid, tier, seed, n_override=None, replay=None):
         "wall_s": round(time.time() - t_start, 1),
         "violations": len(viol) + (1 if (exit_code and not viol) else 0),
     }
-    write_json(evidence_path, ev)
+    if not replay:
+        write_json(evidence_path, ev)
     for l in lines:
         print(l)
     if exit_code == 0:
